@@ -363,6 +363,24 @@ def lookups(rep, tier, rng, up, dist):
         for k, q in enumerate(qs):
             sc += ["open_file 0 %s %d" % (hexs(q), 100 + k), "drop_file %d" % (100 + k)]
         dirs.append((pool, qs, sc, base))
+    # deterministic directory: ASCII punctuation that differs from another legal character only in bit 5 (the "case bit" of
+    # letters): ^ ~   @ `   [ {   ] }  - in long names, in lossless 8.3 names and in generated aliases (NAME~1)
+    def twin(q):
+        m = {"^": "~", "~": "^", "@": "`", "`": "@", "[": "{", "{": "[", "]": "}", "}": "]"}
+        return "".join(m.get(c, c) for c in q)
+    pool = ["report 2024.txt", "a{b}.txt", "x`y", "p@q.dat", "m^n.c", "tilde~name.longer ext", "K[1].TXT", "plain.txt"]
+    qs = []
+    for s_ in pool:
+        qs += [s_, twin(s_), twin(s_).upper(), ascii_swapcase(twin(s_), rng)]
+    qs += ["report~1.txt", "report^1.txt", "REPORT^1.TXT", "tilde~1.lon", "tilde^1.lon", "k_1_~1.txt", "k_1_^1.txt", "K{1}.TXT", "a[b].txt", "x@y", "p`q.dat", "m~n.c"]
+    sc = VOLS["12"] + ["mount 1 0 lossy"]
+    for k, n in enumerate(pool):
+        sc += ["create_file 0 %s %d" % (hexs(n), 20 + k), "drop_file %d" % (20 + k)]
+    sc += ["list 0"]
+    base = len(sc)
+    for k, q in enumerate(qs):
+        sc += ["open_file 0 %s %d" % (hexs(q), 100 + k), "drop_file %d" % (100 + k)]
+    dirs.append((pool, qs, sc, base))
     table = "".join("U %d %s\n" % (c, " ".join(str(x) for x in u[1])) for c, u in up.items() if u[1] != [c])
     ntab = table.count("\n")
     nbad = 0
@@ -394,22 +412,22 @@ def lookups(rep, tier, rng, up, dist):
                 else:
                     rep.distinct(("lookup", variant, q, tuple(pool)))
     # direct statement: builds differ only where a non-ASCII character is involved; alloc never matters
-    nd_, diff = 0, 0
+    nd_, diff, ndir = 0, 0, 0
     for (pool, qs, sc, base) in dirs:
         for k, q in enumerate(qs):
             a, b, c = outcome[("default", id(sc), k)], outcome[("noalloc", id(sc), k)], outcome[("nounicode", id(sc), k)]
             nd_ += 1
-            if a != b and nbad < 3:
-                nbad += 1
+            if a != b and ndir < 3:
+                ndir += 1
                 rep.violation("alloc and no-alloc builds disagree on the lookup of %r" % q, {"script": sc[:base + 2 * k + 1], "variants": ["default", "noalloc"]})
             if a != c:
                 diff += 1
-                if is_ascii(q) and all(is_ascii(p) for p in pool) and nbad < 3:
-                    nbad += 1
+                if is_ascii(q) and all(is_ascii(p) for p in pool) and ndir < 3:
+                    ndir += 1
                     rep.violation("unicode and no-unicode builds disagree on the lookup of the ASCII name %r in a directory of ASCII names" % q,
                                   {"script": sc[:base + 2 * k + 1], "variants": ["default", "nounicode"]})
-                elif is_ascii(q) and nbad < 3 and not any((not is_ascii(p)) and fold_key(p) == fold_key(q) for p in pool):
-                    nbad += 1
+                elif is_ascii(q) and ndir < 3 and not any((not is_ascii(p)) and fold_key(p) == fold_key(q) for p in pool):
+                    ndir += 1
                     rep.violation("unicode and no-unicode builds disagree on the lookup of %r although no non-ASCII name of the directory folds to it" % q,
                                   {"script": sc[:base + 2 * k + 1], "variants": ["default", "nounicode"]})
     dist["lookup_queries"] = nd_
